@@ -20,6 +20,9 @@ CHECKS = {
  "C06": dict(cat="exploration", tech="deterministic simulation with a Byzantine prover over the elliptic-curve operation registry; affine group law over big integers as reference, harness-side point decoder", ref="DESIGN.md 3.2, 4/C06",
    text="Jubjub (native) assignment, add, double, negate, msm (1..4 terms, bounded and unbounded scalars), multiplication by a constant, point from coordinates, equality / identity tests, select and assertions, and secp256k1 / BLS12-381 G1 (foreign) assignment, add, double, negate, point from coordinates, equality, select and multiplication by a constant run on identity, P=Q, P=-Q, low-order and off-curve operands and boundary scalars; honest runs must be satisfiable with the group-law result iff the operands are admissible, and no Byzantine execution may be accepted unless the published points decode to curve (subgroup) points satisfying the group law.",
    note="Foreign-curve variable-base msm, hash-to-curve and (de)compression are not covered at this commit; MockProver is the constraint model; sampling of fault sites."),
+ "C07": dict(cat="exploration", tech="deterministic simulation with a Byzantine prover over the hash operation registry; reference crates and an independent textbook Poseidon as oracles", ref="DESIGN.md 3.2, 4/C07",
+   text="SHA-256, SHA-512, SHA3-256, Keccak-256, BLAKE2b-256/512 and fixed-length Poseidon circuits of the standard library hash messages of every length around the padding boundaries; the published input bytes and digest must equal the reference function (for Poseidon: the library's off-circuit hash and a textbook permutation written independently over the repository's constants), honestly and under Byzantine plans with faults sampled over the whole assignment trace and local repair of failing gate rows (incl. additive-selector constraints).",
+   note="RIPEMD-160, variable-length SHA-256 / Poseidon and sponge absorb/squeeze sequences are not reachable through ZkStdLib and are not covered at this commit; fault sites are sampled."),
  "C09": dict(cat="exploration", tech="deterministic simulation: invariant monitor on a structure-recording Assignment back end (unknown vs concrete vs Byzantine witnesses), sampled real keygen/prove/verify", ref="DESIGN.md 4/C09",
    text="Each operation circuit of the registry is synthesised with unknown witnesses, with the concrete boundary-class witness and under Byzantine value edits; fixed cells, selectors, the copy-constraint partition, table fills, advice positions and region count must coincide, and for a sample the verifying key made without a witness must verify a real proof made from the witness.",
    note="Covers the operation circuits present in the registry (native family at this commit, extended as the registry grows); the proof pipeline circuits of C01 have witness-independent structure by construction of the generator."),
